@@ -1,7 +1,7 @@
 (** C06 — property theorems that rest on other developments' printer models (C14: operation type printer,
     C10: schema and resolver declaration printers). *)
 From V Require Import Base.Util Gen.C06_tables_gen C06.Model C06.Spec C06.Proofs C06.ProofsMap C06.ProofsWriter C06.ProofsDefs C06.ProofsDefsSchema.
-From V Require C14.Model Gql.Ast Ts.TsType C10.Model C10.SitesForC06 C06.ExamplesDefs.
+From V Require C14.Model Gql.Ast Ts.TsType C10.Model C10.ResolverProofs C10.SitesForC06 C06.ExamplesDefs.
 
 Theorem C06_operation_definitions_are_mapped :
   forall fmap t d B st,
@@ -40,12 +40,16 @@ Proof. exact schema_definitions_are_mapped_lemma. Qed.
 Print Assumptions C06_schema_definitions_are_mapped.
 
 Theorem C06_resolver_definitions_are_mapped :
-  forall fmap o doc ops st,
-  C10.Model.print_resolvers o 0 doc = C10.Model.Ok ops ->
+  forall fmap o n doc ops st,
+  C10.Model.print_resolvers o n doc = C10.Model.Ok ops ->
   sw_run fmap (map conv_wop10 ops) = Some st ->
-  forall td, In td (C10.Model.typedefs doc) -> C10.Model.is_input_def td = false ->
-    Gql.Ast.pbuiltin (Gql.Ast.ipos (Gql.Ast.typedef_name td)) = false ->
-    mapped_in fmap st (C10.Model.tname td) (conv_pos10 (Gql.Ast.ipos (Gql.Ast.typedef_name td))) (C10.Model.tname td).
+  (forall td, In td (C10.Model.typedefs doc) -> C10.Model.is_input_def td = false ->
+     Gql.Ast.pbuiltin (Gql.Ast.ipos (Gql.Ast.typedef_name td)) = false ->
+     mapped_in fmap st (C10.Model.tname td) (conv_pos10 (Gql.Ast.ipos (Gql.Ast.typedef_name td))) (C10.Model.tname td)) /\
+  (forall d p nm impls dirs fields kw fd,
+     In (Gql.Ast.TDObject d p nm impls dirs fields kw) (C10.Model.typedefs (C10.ResolverProofs.resolver_doc n doc)) -> In fd fields ->
+     Ts.TsType.is_raw_ident (Gql.Ast.iname (Gql.Ast.fd_name fd)) = true -> Gql.Ast.pbuiltin (Gql.Ast.ipos (Gql.Ast.fd_name fd)) = false ->
+     mapped_in fmap st (Gql.Ast.iname (Gql.Ast.fd_name fd)) (conv_pos10 (Gql.Ast.ipos (Gql.Ast.fd_name fd))) (Gql.Ast.iname (Gql.Ast.fd_name fd))).
 Proof. exact resolver_definitions_are_mapped_lemma. Qed.
 Print Assumptions C06_resolver_definitions_are_mapped.
 
